@@ -226,7 +226,12 @@ class AsyncFIXConnection:
                 )
                 if socket_writer:
                     socket_writer.close()
-                    await socket_writer.wait_closed()
+                    try:
+                        await socket_writer.wait_closed()
+                    except OSError:
+                        # connection was lost with an error (e.g. reset by peer),
+                        #   wait_closed() reports it again, socket is closed anyway
+                        pass
                 self._socket_writer = None
                 await self._state_set(disconn_state)
                 await self.on_disconnect()
